@@ -71,20 +71,27 @@ def register(PROPS, COMPONENTS):
                         sp[k] = sp[k] + [x]
 
     COMPONENTS["latch"] = dict(client="latch", driver="latch", directed_runs=6, quick_runs=400, thorough_runs=30000,
-                               oracle=oracle_latch)
+                               oracle=oracle_latch, cov_headers=["gmlc/concurrency/Latch.hpp"])
     PROPS["C10"] = dict(
         lean_files=["ConcVerif/Props/C10.lean"], components=["latch"], stage="A",
         level_text="Lean 4 theorems (kernel-checked, unbounded threads/calls/interleavings, spurious wake-ups included) over an "
                    "executable model of Latch.hpp at the level of its mutex / condition-variable / atomic operations: wait soundness, "
-                   "no-lost-wake-up invariant, holder-never-blocked, bounded remaining steps once open, arrive never waits. The model is "
+                   "no-lost-wake-up invariant, holder-never-blocked, bounded remaining steps once open, arrive never waits, and termination: "
+                   "once open, deadlock-freedom plus a strictly decreasing rank make every execution with finitely many calls end with "
+                   "all waiters returned, under every scheduler. The model is "
                    "tied to the source on every run: the unmodified header runs against substituted std primitives under a deterministic "
                    "scheduler and every primitive-level trace must be accepted by the model's step function with all model edges covered.",
         level_note="Trusted: Lean kernel (+propext, Classical.choice, Quot.sound), the primitive semantics assumed for std::mutex / "
-                   "condition_variable / seq_cst atomics, the shim+scheduler+driver glue. Partial: the liveness clause is proved as the "
-                   "safety facts that imply it under weak fairness (L1-L4); the fair-termination step itself is not mechanised.",
+                   "condition_variable / seq_cst atomics, the shim+scheduler+driver glue. Liveness is proved without any fairness assumption for "
+                   "executions with finitely many calls (deadlock-freedom + strictly decreasing rank, Base/Live.lean); not covered: one "
+                   "waiter starved by infinitely many calls of other threads under an unfair mutex/scheduler.",
         trusted_base=["Model/Latch.lean is a hand-written model of Latch.hpp (arrive/wait/arrive_and_wait)"],
-        partial=["'every current and future waiter returns' is proved as the safety facts L1-L4 (no lost wake-up, holder never "
-                 "blocked, bounded remaining steps, enabledness); the final fair-scheduler termination step is not mechanised"],
+        partial=["'every current and future waiter returns' is proved as: (a) C10_open_progress — in every reachable open state "
+                 "some thread inside a call has an enabled step (deadlock-freedom); (b) C10_open_terminates / C10_open_bounded_run — "
+                 "every execution that makes finitely many calls after the latch opened is finite, for EVERY scheduler, spurious "
+                 "wake-ups included (ranking function, Base/Live.lean); hence every maximal such execution ends with every waiter "
+                 "returned (C10_stuck_all_returned). Not covered: starvation of one waiter by infinitely many calls of other "
+                 "threads (would need a fair mutex, which C++ does not promise)"],
         assumptions=["std::mutex / std::condition_variable behave as in Base semantics (spurious wake-ups allowed)",
                      "seq_cst atomics are interleaved cells (C07 carries the memory-model half)"],
     )
